@@ -354,6 +354,14 @@ func movedJustifications(p *prog.Program, obs []report.Obligation, stale []strin
 			seen[f] = true
 			for _, b := range f.Blocks {
 				for _, in := range b.Instrs {
+					// a function used as a value: a method value (bound-method wrapper), a named function handed on
+					for _, op := range in.Operands(nil) {
+						if fv, ok := (*op).(*ssa.Function); ok {
+							if fv == to || (fv.Synthetic != "" && walk(fv, d)) {
+								return true
+							}
+						}
+					}
 					if ci, ok := in.(ssa.CallInstruction); ok {
 						cal := ci.Common().StaticCallee()
 						if cal == nil {
